@@ -103,3 +103,12 @@ pub fn vu32_try_from_expect(n: usize) -> (r: u32)
     requires n <= 0xFFFF_FFFF,
     ensures r == n,
 { n as u32 }
+
+// ---- typed wrappers of ReadIndex (get_tree / get_data / has_tree / has_data) ----
+#[derive(Clone, Copy, PartialEq, Eq, Structural)]
+pub struct TreeId(pub u64);
+#[derive(Clone, Copy, PartialEq, Eq, Structural)]
+pub struct DataId(pub u64);
+// BlobId::from(**id): same 32 bytes under another newtype
+pub fn vblobid_of_tree(id: &TreeId) -> (r: BlobId) ensures r == BlobId(id.0), { BlobId(id.0) }
+pub fn vblobid_of_data(id: &DataId) -> (r: BlobId) ensures r == BlobId(id.0), { BlobId(id.0) }
